@@ -112,8 +112,11 @@ func (h *c14Handler) reenter(data []byte) {
 
 func (h *c14Handler) HandleArrayValue(data []byte) (int, error) { return h.handle(data) }
 func (h *c14Handler) HandleObjectValue(key, data []byte) (int, error) {
-	h.note(-7, int64(len(key)))
-	return h.handle(data)
+	h.note(-7, int64(len(key)), int64(core.Hash(key)>>1))
+	p, err := h.handle(data)
+	// the name as it reads after the handler has used (and possibly re-entered with) the Buffer
+	h.note(-8, int64(core.Hash(key)>>1))
+	return p, err
 }
 
 // errCode folds an error into the trace: 1 for nil, otherwise a hash of its text.
